@@ -126,6 +126,9 @@ PART_ZERO_VALUES = {
     'PYTAG': "",
     'NUM'  : "0",
     'INC0' : "0",
+    # NOTE: a version without hash does not get one
+    'GITHASH': "",
+    'HEXHASH': "",
 }
 
 
